@@ -33,7 +33,14 @@ def find_prepare(ctx):
             continue
         tys = [b["locals"][i]["s"] for i in range(1, b["arg_count"] + 1)]
         takes_ranges = any("[std::ops::Range<u64>]" in t or "Vec<std::ops::Range<u64>>" in t for t in tys)
-        renders = "Vec<std::vec::Vec<u8>>" in b["locals"][0]["s"]
+        rs = b["locals"][0]["s"]
+        renders = "Vec<std::vec::Vec<u8>>" in rs
+        if not renders:
+            # ... or a private record holding the rendered part headers (`Result<MultipartPlan, _>`)
+            for adt_ in ctx.facts.adts.values():
+                if adt_.get("local") and adt_["kind"] == "struct" and adt_["path"] in rs and \
+                        any("Vec<std::vec::Vec<u8>>" in f_["ty"] for f_ in adt_["variants"][0]["fields"]):
+                    renders = True
         if takes_ranges and (any("http::response::Builder" in t for t in tys) or renders) and "Stream" not in n:
             out.append(n)
     if len(out) != 1:
@@ -164,7 +171,31 @@ def length_sum(ctx, rule):
                 if t[1].endswith("::header") and SM.hdr_name(t[2][1]) == "CONTENT_LENGTH":
                     cl = t[2][2]
                 t = t[2][0]
-        if cl is None:
+        if cl is None and bld is None and "builder" not in R["params"]:
+            # the preparation function only computes (part headers, total): the caller announces the total. With the function
+            # expanded in the serve analysis, the announced value must be this very total on every multipart row
+            M_ = SM.analyse(ctx)
+            nmp = 0
+            for r_ in SM.ok_rows(M_):
+                if r_.body["kind"] != "multipart" and not (r_.status == 206 and any(h[0] == "CONTENT_TYPE" for h in r_.headers)):
+                    continue
+                nmp += 1
+                cls_ = [h for h in r_.headers if h[0] == "CONTENT_LENGTH"]
+                fv_ = SM.fmt_value(cls_[0][1]) if len(cls_) == 1 else {"kind": "none"}
+                args_ = SM.fmt_arg_values(fv_) if fv_["kind"] == "fmt" else []
+                okcl = len(args_) == 1 and SM.template_text(fv_.get("template")) == "{}" and isinstance(args_[0][2], tuple) and \
+                    args_[0][2][0] == "binop" and args_[0][2][1] == "Add" and isinstance(args_[0][2][2], tuple) and args_[0][2][2][0] == "loopvar" and \
+                    args_[0][2][2][1:4] == acc_lv[1:4] and args_[0][2][3] == const(trailer_len)
+                if not okcl:
+                    ctx.violation(rule, rule + "|cl-not-total", "multipart Content-Length announced by the caller is %s, not the body length the preparation computed" %
+                                  (short(args_[0][2], 60) if args_ else fv_["kind"]), where=SM.row_where(r_))
+                elif r_.body["kind"] == "multipart" and r_.body.get("len") != args_[0][2]:
+                    ctx.violation(rule, rule + "|cl-not-stream-len", "multipart Content-Length differs from the length handed to the multipart stream", where=SM.row_where(r_))
+            if nmp:
+                ctx.ok(rule, "Content-Length of every multipart row (set by the caller) == accumulator + trailer", detail={"rows": nmp})
+            else:
+                ctx.violation(rule, rule + "|no-cl", "no multipart row announces a Content-Length")
+        elif cl is None:
             ctx.violation(rule, rule + "|no-cl", "the multipart builder gets no Content-Length")
         else:
             fv = SM.fmt_value(cl)
